@@ -55,6 +55,24 @@ TEXTS = {
         "level_note": "Trusted: T-OPS same-dtype-only operand table and torch promotion order; inputs and parameters share one floating dtype; A-NET, A-UMNN. Definite-error policy: only operands whose provenance set is exactly {D} / exactly {M} are reported.",
         "technique": "static dtype-provenance abstract interpretation (partial claim: dtype clause only; numeric agreement declined)",
     },
+    "C03": {
+        "level_text": "Necessary conditions only: the three ways the code can assemble a wrong density that shape-only tests cannot see. Flow._log_prob is expanded symbolically on every path and must be exactly +base.log_prob(noise) + logabsdet with both components from one forward call on the inputs and the same embedded context; the Gaussian bases' log-densities must have exactly the negative quadratic / log-std / shape-only normaliser terms. That the density integrates to one is an integral over the whole input space and is NOT decided; the 'onto' half for bounded transformers is referred to the C09 rules.",
+        "design_ref": "DESIGN.md 1.3, 2.C03",
+        "level_note": "Trusted: the transform contract (forward returns (noise, log|det J|)); the value of the normalising constant is deliberately not compared (a frozen-constant rule would be a false alarm in waiting).",
+        "technique": "static path-wise symbolic expansion + signed-sum normal form (term accounting); partial claim",
+    },
+    "C04": {
+        "level_text": "Necessary conditions for row-by-row agreement of samples and densities: symbolic expansion proves sample_and_log_prob returns (inverse(noise)[0], base_lp - inverse(noise)[1]) from one base draw and one inverse call, Flow.sample inverts base noise, and at the seven sites that merge a [rows, n] pair the context/parameters are replicated row-major and split back as [rows, n] (tiling is a definite error). The statistical half -- samples follow exp(log_prob) -- is out of reach and NOT claimed.",
+        "design_ref": "DESIGN.md 2.C04",
+        "level_note": "Trusted: helper semantics of repeat_rows/merge_leading_dims/split_leading_dim (checked under C20), the transform contract, A-API.",
+        "technique": "static symbolic expansion with signed-sum normal form + call-site pairing rule for row replication",
+    },
+    "C18": {
+        "level_text": "Guard-dominance and shape-role rules for the Distribution interface, for all argument values: the documented exception types guard every use of the validated argument; batches are concatenated along the sample axis in both context cases (decided from path conditions); full batches plus a positive remainder are drawn with the same context; every sampler returns [rows, num_samples, ...]. 'Batching leaves the distribution unchanged' is statistical and not claimed beyond these structural conditions.",
+        "design_ref": "DESIGN.md 2.C18",
+        "level_note": "Trusted: typechecks.is_positive_int as specified (C20 UT-PRED); A-API. The defect D1 (cat along dim 0 with a context) was repaired in /repo (fix: commit 8f1efd2).",
+        "technique": "static guard dominance over structured control flow + path-condition reasoning on the concatenation axis + normal-form comparison",
+    },
 }
 
 NOT_CLAIMED = {}
